@@ -71,7 +71,7 @@ Example C06_example :
 Proof. vm_compute. repeat split. Qed.
 
 (* == as it is coded (Model/HK.v: Hopcroft-Karp over pairs (state, operand index) with the None sink, the
-   networkx union-find and the explicit stack, run on fuel |Q_A|+|Q_B|+3): for EVERY iteration order
+   networkx union-find (parent forest, path compression, weights) and the explicit stack, run on fuel |Q_A|+|Q_B|+3): for EVERY iteration order
    `syms` of the input-symbol set and EVERY tie-break `tie` of the union-find among roots of equal weight,
    the mirror model is the same function of the operands as the specification model eq_m - it returns
    (never runs out of fuel, never an error) and its boolean is language equality. *)
@@ -86,6 +86,21 @@ Proof.
   - exact (hk_eq_gen_spec A B HA HB tie syms Hs).
 Qed.
 Print Assumptions C06_hk_eq_faithful.
+
+(* the union-find inside the mirror model is networkx's parent forest (walk to the root, compression of the
+   walked path, one re-pointing per union); it is interchangeable, on every run of the loop over any two
+   deterministic systems and for every fuel, with the flat structure the correctness proof uses: path
+   compression and the shape of the forest are not observable *)
+Theorem C06_hk_path_compression_unobservable :
+  forall (X Y : Type) (eqbX : X -> X -> bool) (eqbY : Y -> Y -> bool), eqb_ok eqbX -> eqb_ok eqbY ->
+  forall stepX stepY finX finY tie syms fuel x0 y0,
+    hk_run_forest X Y eqbX eqbY stepX stepY finX finY tie syms fuel x0 y0 =
+    hk_run_flat X Y eqbX eqbY stepX stepY finX finY tie syms fuel x0 y0.
+Proof.
+  intros X Y eqbX eqbY HX HY stepX stepY finX finY tie syms fuel x0 y0.
+  exact (hkf_run_eq X Y eqbX eqbY HX HY stepX stepY finX finY tie syms x0 y0 fuel).
+Qed.
+Print Assumptions C06_hk_path_compression_unobservable.
 
 Example C06_hk_example :
   let A := mkdfa [0;1] [0;1] [(0,[(0,1);(1,0)]);(1,[(0,0);(1,1)])] 0 [0] false in  (* even number of 0s *)
